@@ -872,6 +872,9 @@ func (g *Gen) ghostGet(st *State, name string) string {
 	if strings.HasPrefix(name, "lockn.epoch.") {
 		return "0" // number of acquisitions so far
 	}
+	if strings.HasPrefix(name, "lockn.calls.") {
+		return "0"
+	}
 	if strings.HasPrefix(name, "lockn.at.") {
 		return "(- 1)" // no such call yet
 	}
